@@ -169,9 +169,12 @@ func GenScope(r *lib.Rand, unknowns, marks bool) *Scope {
 		cty.ObjectVal(map[string]cty.Value{"a": numVal(r), "b": strVal(r)}),
 		cty.ObjectVal(map[string]cty.Value{"a": numVal(r), "b": strVal(r)}),
 	}))
+	// keys whose type differs from the collection's own key type: the index operator converts them
+	add("numstr", "sidx", cty.StringVal(r.Pick([]string{"0", "1", "2", "1"})))
+	add("keymap", "mk", cty.MapVal(map[string]cty.Value{"0": strVal(r), "1": strVal(r), "2": strVal(r), "true": strVal(r), "false": strVal(r)}))
 	add("null", "nul", cty.NullVal(cty.DynamicPseudoType))
 	add("null", "nuls", cty.NullVal(cty.String))
-	names := []string{"n1", "n2", "idx", "s1", "s2", "key", "b1", "b2", "l1", "ls", "t1", "m1", "o1", "lo"}
+	names := []string{"n1", "n2", "idx", "s1", "s2", "key", "b1", "b2", "l1", "ls", "t1", "m1", "o1", "lo", "sidx", "sidx", "mk"}
 	for n, v := range s.Vars {
 		s.Orig[n] = v
 	}
@@ -324,6 +327,9 @@ func (g *TypedGen) Gen(ty string, depth int) *lib.Node {
 			return cond("num")
 		case 5:
 			g.Stats["index"]++
+			if r.Chance(1, 4) {
+				return &lib.Node{K: "index", Kids: []*lib.Node{{K: "var", S: r.Pick([]string{"l1", "t1"})}, {K: "var", S: "sidx"}}}
+			}
 			return &lib.Node{K: "index", Kids: []*lib.Node{orElse(g.pickVar("listnum"), func() *lib.Node { return g.Gen("tuple", 0) }), g.Gen("num", 0)}}
 		case 6:
 			g.Stats["attr"]++
@@ -411,6 +417,13 @@ func (g *TypedGen) Gen(ty string, depth int) *lib.Node {
 			return &lib.Node{K: "call", S: "ns::cat2", Kids: []*lib.Node{g.Gen("str", d), g.Gen(r.Pick([]string{"str", "num"}), d)}}
 		case 6:
 			g.Stats["index"]++
+			switch r.Intn(5) {
+			case 0:
+				// a number or bool key into a map, a numeric string into a list: the key is converted
+				return &lib.Node{K: "index", Kids: []*lib.Node{{K: "var", S: "mk"}, {K: "var", S: r.Pick([]string{"idx", "b1", "b2"})}}}
+			case 1:
+				return &lib.Node{K: "index", Kids: []*lib.Node{{K: "var", S: "ls"}, {K: "var", S: "sidx"}}}
+			}
 			return &lib.Node{K: "index", Kids: []*lib.Node{&lib.Node{K: "var", S: "m1"}, g.Gen("str", 0)}}
 		case 7:
 			g.Stats["attr"]++
@@ -422,6 +435,35 @@ func (g *TypedGen) Gen(ty string, depth int) *lib.Node {
 			body := &lib.Node{K: "tmpl", Kids: []*lib.Node{{K: "interp", Kids: []*lib.Node{g.Gen("num", d)}}, {K: "tlit", S: ","}}}
 			g.bound = g.bound[:len(g.bound)-1]
 			return &lib.Node{K: "tmpl", Kids: []*lib.Node{{K: "tlit", S: "<"}, {K: "tfor", S: "tv", Kids: []*lib.Node{orElse(g.pickVar("listnum"), func() *lib.Node { return g.Gen("tuple", 0) }), body}}, {K: "tlit", S: ">"}}}
+		case 9:
+			g.Stats["template-if"]++
+			// "%{if c}A%{else}B%{endif}": the clauses are sub-templates and always produce strings, also when a
+			// clause is a single interpolation of a number, a bool or a collection
+			clause := func() *lib.Node {
+				c := &lib.Node{K: "tmpl"}
+				switch r.Intn(4) {
+				case 0:
+					c.Kids = append(c.Kids, &lib.Node{K: "tlit", S: r.Pick([]string{"a", " ", "x="})})
+				case 1:
+					c.Kids = append(c.Kids, &lib.Node{K: "tlit", S: "v"}, &lib.Node{K: "interp", Kids: []*lib.Node{g.Gen(r.Pick([]string{"str", "num", "bool"}), 0)}})
+				default:
+					c.Kids = append(c.Kids, &lib.Node{K: "interp", Kids: []*lib.Node{g.Gen(r.Pick([]string{"str", "num", "bool", "num", "bool", "tuple"}), 0)}})
+				}
+				return c
+			}
+			tif := &lib.Node{K: "tif", Kids: []*lib.Node{g.Gen("bool", d), clause()}}
+			if r.Chance(3, 4) {
+				tif.Kids = append(tif.Kids, clause())
+			}
+			n := &lib.Node{K: "tmpl"}
+			if r.Chance(1, 3) {
+				n.Kids = append(n.Kids, &lib.Node{K: "tlit", S: "<"})
+			}
+			n.Kids = append(n.Kids, tif)
+			if r.Chance(1, 3) {
+				n.Kids = append(n.Kids, &lib.Node{K: "tlit", S: ">"})
+			}
+			return n
 		default:
 			return g.Gen("str", 0)
 		}
